@@ -858,6 +858,7 @@ def evalmp(s, env, digits=60):
         "ln": mp.log, "exp": mp.exp, "atan": mp.atan, "sqrt": mp.sqrt, "abs": abs, "sin": mp.sin, "cos": mp.cos,
         "tan": mp.tan, "tanh": mp.tanh, "root": lambda x, q: mp.power(x, mp.mpf(1) / q), "pow": lambda x, y: mp.power(x, y),
         "Gamma": mp.gamma, "digamma": mp.digamma, "atanh": mp.atanh, "sinh": mp.sinh, "cosh": mp.cosh,
+        "Re": mp.re, "Im": mp.im, "conj": mp.conj, "atan2": lambda y, x: mp.atan2(mp.re(y), mp.re(x)), "arg": mp.arg,
     }
     memo = {}
 
